@@ -254,6 +254,10 @@ pub struct Judge {
     pub fresh_before_this_op: bool,
     /// instances of the recorded finding c06_incremental_scc_membership
     pub cyclic_incremental: Vec<String>,
+    /// queries that took a cycle default at some point of this history (executor invoked, no value returned)
+    pub took_default: std::collections::HashSet<Node>,
+    /// an instance of that finding has occurred in this history: later mismatches are its consequences
+    pub tainted: bool,
 }
 impl Judge {
     pub fn observe(&mut self, prog: &Program, op: &Op, res: &OpResult, step: usize) {
@@ -313,6 +317,9 @@ impl Judge {
                 }
             }
         }
+        if self.cyclic {
+            for n in &order { if n.kind != Kind::External && !res.events.iter().any(|e| matches!(e, Event::Done { node, .. } if node == n)) { self.took_default.insert(*n); } }
+        }
         for n in &order { self.computed.insert(*n); }
         for (n, v) in done_now { self.done_hist.entry(n).or_default().push((step, v)); }
         for n in &order { self.last_run.insert(*n, step); }
@@ -323,7 +330,11 @@ impl Judge {
                 let want = oracle(prog, &self.inputs, &self.ext_seen, *dep, 0);
                 if self.cyclic && want.is_none() { self.skipped_cyclic += 1; continue; }
                 self.judged += 1;
-                if want != Some(*value) {
+                if want != Some(*value) && self.cyclic && (self.tainted || (*value == crate::prog::scc_default(dep.kind) && self.took_default.contains(dep))) {
+                    // a cycle default that outlived its cycle (recorded finding c06_incremental_scc_membership), or a consequence of an earlier instance in this history
+                    self.tainted = true;
+                    self.cyclic_incremental.push(format!("step {step}: executor of {} was handed {}={} but from-scratch gives {:?}", by.short(), dep.short(), value, want));
+                } else if want != Some(*value) {
                     self.violations_c01.push(format!("step {step}: executor of {} was handed {}={} but from-scratch gives {:?}", by.short(), dep.short(), value, want));
                 }
             }
@@ -334,7 +345,13 @@ impl Judge {
             let mut through_cycle = false;
             if self.cyclic && want.is_none() { want = crate::prog::oracle_cyclic(prog, &self.inputs, &self.ext_seen, *n); self.judged_cyclic += 1; through_cycle = true; }
             if self.cyclic && want.is_none() { self.skipped_cyclic += 1; }
+            else if want != Some(*v) && self.cyclic && !self.fresh_before_this_op
+                    && (self.tainted || (!through_cycle && *v == crate::prog::scc_default(n.kind) && self.took_default.contains(n))) {
+                self.tainted = true;
+                self.cyclic_incremental.push(format!("step {step}: query {} returned {} but from-scratch gives {:?}", n.short(), v, want));
+            }
             else if through_cycle && want != Some(*v) && !self.fresh_before_this_op {
+                self.tainted = true;
                 // recorded finding c06_incremental_scc_membership: results computed in earlier requests are reused
                 // although cycle membership has changed since (see known_findings.txt); a FRESH evaluation is judged strictly
                 self.cyclic_incremental.push(format!("step {step}: query {} returned {} but from-scratch with cycle defaults gives {:?}", n.short(), v, want));
